@@ -63,7 +63,7 @@ class ForcePlatformData(Sized, BuildWriteable):
         n_segments = i32.bread(stream)
         i32.skip(stream)  # padding
         segment_data = SegmentData.bread(stream, n_segments)
-        data = np.empty(n_frames, dtype=PlatDataType.btype)
+        data = np.full(n_frames, np.nan, dtype=PlatDataType.btype)
         for start_frame, n_frames in segment_data:
             dat = PlatDataType.bread(stream, n_frames)
             data[start_frame : start_frame + n_frames] = dat
